@@ -61,7 +61,7 @@ def strategy_(g):
         scale = 10.0 ** rnd.uniform(-3, 3) if sc == "wide" else 1.0 if sc == "one" else 1.0 + rnd.choice([1.0, -1.0]) * 10.0 ** rnd.uniform(-15, -3)
         return {"shape": shape, "q": q, "scale": scale, "t": g.vec(3)}
     regime = g.choice(["near", "wild"])
-    kw = dict(bases=("se3", "se3", "se2"), n_pose=(2, 8), n_lm=(0, 3), n_loops=(0, 3), conds=(1.0, 1e2), features=("parallel", "reversed", "permute", "multifixed", "quat-signs"))
+    kw = dict(bases=("se3", "se3", "se2"), n_pose=(2, 8), n_lm=(0, 3), n_loops=(0, 3), conds=(1.0, 1e2), features=("parallel", "reversed", "permute", "multifixed", "quat-signs", "pure-translation-steps"))
     kw.update(dict(noise=(0.05, 0.05), pert=(0.3, 0.3)) if regime == "near" else dict(noise=(0.5, 0.5), pert=(3.0, 3.0)))
     case = GG.gen(g, **kw)
     case["shape"] = shape
@@ -210,6 +210,15 @@ def _check_construct(case, ctx):
             return ctx.fail("se2-angle-not-congruent", "from_matrix(to_matrix(p)) angle %r vs %r" % (th, float(p[2])))
         from graphslam.util import neg_pi_to_pi
 
+        # an earlier call with a float32 angle (no claim about its own accuracy) must not influence later float64 calls
+        t32 = float(np.float32(t))
+        _ = gs.PoseSE2(case["xy"], np.float32(t))
+        _ = neg_pi_to_pi(np.float32(t))
+        p32 = gs.PoseSE2(case["xy"], t32)
+        if _angle_ok(ctx, "PoseSE2(...) after a float32 call with the same value", p32[2], XA.frac(t32)):
+            return
+        if _angle_ok(ctx, "neg_pi_to_pi after a float32 call with the same value", float(neg_pi_to_pi(t32)), XA.frac(t32)):
+            return
         w = float(neg_pi_to_pi(t))
         if _angle_ok(ctx, "neg_pi_to_pi", w, XA.frac(t)):
             return
